@@ -62,7 +62,7 @@ func c01AgentHistory(R *vr.Result, rng *rand.Rand, id, mode string) {
 		switch k := rng.Intn(100); {
 		case k < 20:
 			adm := rng.Intn(3) == 0
-			pw := fmt.Sprintf("added-%d", i)
+			pw := fmt.Sprintf("added-%d", i) + c01aTail(rng)
 			t0 := time.Now().Unix()
 			err := iface.Add(u, pw, adm)
 			hist = append(hist, fmt.Sprintf("add(%s,%v)=%v", u, adm, err == nil))
@@ -73,7 +73,7 @@ func c01AgentHistory(R *vr.Result, rng *rand.Rand, id, mode string) {
 				model[u] = &c01aUser{pw: pw, admin: adm, tLo: t0, tHi: time.Now().Unix()}
 			}
 		case k < 45:
-			pw := fmt.Sprintf("updated-%d", i)
+			pw := fmt.Sprintf("updated-%d", i) + c01aTail(rng)
 			t0 := time.Now().Unix()
 			err := iface.Update(u, pw)
 			hist = append(hist, fmt.Sprintf("update(%s)=%v", u, err == nil))
@@ -175,4 +175,9 @@ func c01AgentHistory(R *vr.Result, rng *rand.Rand, id, mode string) {
 	if len(R.Samples) < 2 {
 		R.Sample(map[string]any{"history": id, "mode": mode, "ops": hist})
 	}
+}
+
+// c01aTail: most passwords end plainly, some end in bytes that careless input handling strips.
+func c01aTail(rng *rand.Rand) string {
+	return []string{"", "", "", "\n", "\r\n", " ", "\t", "\x00x", " \n"}[rng.Intn(9)]
 }
